@@ -55,6 +55,8 @@ pub struct XferCfg {
     pub resend_request: bool,
     /// writer: the process dies after having sent this many DATA datagrams (possibly mid-window)
     pub die_after_blocks: Option<u64>,
+    /// a finished client closes its socket at once (what real clients do): later datagrams bounce
+    pub close_when_done: bool,
 }
 
 impl XferCfg {
@@ -72,6 +74,7 @@ impl XferCfg {
             script: vec![],
             resend_request: true,
             die_after_blocks: None,
+            close_when_done: false,
         }
     }
     pub fn opt_num(&self, name: &str) -> Option<u64> {
@@ -686,6 +689,11 @@ impl Peer for Writer {
                         self.status = Status::Done;
                         self.done_at = Some(cx.now());
                         self.gen += 1;
+                        if self.cfg.close_when_done {
+                            cx.note("writer is done and closes its socket".to_string());
+                            cx.close_endpoint();
+                            self.silent = true;
+                        }
                         return;
                     }
                     self.pump(cx);
